@@ -104,9 +104,24 @@ fn inner(c: &TryCase) -> Result<CaseReport, Stop> {
             }
             let full = fillers.len() >= room;
             let up = ustr(&path);
+            // a connect(2) on a blocking socket towards a listener whose queue is full can only end when somebody
+            // accepts, and here only the harness could: that is a definitive hang, it is released and reported
+            let lfd = l.as_ref().map(|l| l.fd());
+            let w = lfd.filter(|_| full).map(|lfd| {
+                HangWatch::start(std::time::Duration::from_millis(1500), || true, move || unsafe {
+                    let a = libc::accept(lfd, core::ptr::null_mut(), core::ptr::null_mut());
+                    if a >= 0 {
+                        libc::close(a);
+                    }
+                })
+            });
             sc::verif::log_begin();
             let r = no_panic(opname, || UnixStream::try_connect(&up));
+            let stuck = w.and_then(|w| w.finish());
             let log = sc::verif::log_end();
+            if let Some(wait) = stuck {
+                return Err(stop_fail(format!("{opname}|blocks|listener's queue full"), format!("try_connect to a listener (backlog {}) with {} connections pending sat in {wait}; it came back only after the harness accepted one of the pending connections", c.backlog, fillers.len())));
+            }
             never_blocks(opname, &log, &BTreeSet::new())?;
             match r? {
                 Ok(Some(s)) => {
